@@ -936,3 +936,11 @@ SPECS += [
     ("C04", "string-lines-measured", "rope/refactor/sourceutils.py",
      replace_expr_where("find_minimum_indents", _is("line.strip() == '' or in_string"), _expr("line.strip() == ''")), ["R04.12"]),
 ]
+
+# the byte order mark and the import tools (fix 797adba)
+SPECS += [
+    ("C16", "statement-text-keeps-the-mark", "rope/refactor/importutils/module_imports.py",
+     replace_expr_where("_GlobalImportFinder._get_text", _is("'\\n'.join(result).lstrip(_BOM)"), _expr("'\\n'.join(result)")), ["R16.15"]),
+    ("C16", "mark-not-restored", "rope/refactor/importutils/module_imports.py",
+     remove_stmt_where("ModuleImports.get_changed_source", stmt_is("if self.pymodule.source_code.startswith(_BOM)")), ["R16.15"]),
+]
